@@ -59,7 +59,7 @@ P = {
     "generated_props": ["Spine.Props.C19Layouts", "Spine.Props.C19Instants", "Spine.Props.C19Scaled"],
     "generated": ["timelayouts", "scaledexpr"],
     "generated_files": ["TimeLayouts.lean", "ScaledExpr.lean"],
-    "lemma_modules": ["Spine.C19", "Spine.RndSound", "Spine.C19Exec", "Spine.DurText", "Spine.DurTextThm", "Spine.TimeText", "Spine.TimeTextThm", "Spine.FExpr"],
+    "lemma_modules": ["Spine.C19", "Spine.C19Wide", "Spine.RndSound", "Spine.C19Exec", "Spine.DurText", "Spine.DurTextThm", "Spine.TimeText", "Spine.TimeTextThm", "Spine.FExpr"],
     "drivers": ["drv_num"],
     "tests": [{"name": "TestNumeric"}],
     "trusted_base": [
